@@ -45,6 +45,33 @@ namespace BitSerializer
 		}
 
 		/// <summary>
+		/// Adds all validation errors of one field at once, the limit `maxValidationErrors` (it limits the number of fields)
+		/// is checked only after that, as the number of errors for each particular field is unlimited in any case.
+		/// </summary>
+		void AddValidationErrors(std::string path, ValidationErrors errors)
+		{
+			if (errors.empty()) {
+				return;
+			}
+
+			if (const auto it = mErrorsMap.find(path); it == mErrorsMap.end()) {
+				mErrorsMap.try_emplace(std::move(path), std::move(errors));
+			}
+			else
+			{
+				for (auto& errorMsg : errors) {
+					it->second.push_back(std::move(errorMsg));
+				}
+			}
+
+			// Immediately throw `ValidationException` when `MaxValidationErrors` is exceeded
+			if (mSerializationOptions.maxValidationErrors > 0 && static_cast<size_t>(mSerializationOptions.maxValidationErrors) == mErrorsMap.size())
+			{
+				OnFinishSerialization();
+			}
+		}
+
+		/// <summary>
 		/// Stores an error which was detected in a place from where exceptions cannot be thrown (like destructors of archive scopes),
 		/// it will be thrown at the end of serialization (only the first error is kept).
 		/// </summary>
